@@ -1,5 +1,7 @@
 """C10 -- unconnected parts of a simulation never influence each other."""
 import asyncio
+import json
+import os
 import random
 
 import slevel
@@ -236,8 +238,44 @@ def topics_part(ck, tier, rng):
                   dict(property="C15", kind="topic", names=[hit[0], hit[1]], what=hit[2]))
 
 
+def epics_builder_part(ck, tier, rng):
+    """the shipped EpicsIo on the REAL softioc record builder (process-wide state, hence one child process per scenario;
+    only the function that starts the IOC is replaced): the records an adapter creates carry its own device name and
+    the IOC is started, whether or not another, unrelated EPICS device (with or without a database file) is set up
+    at the same time"""
+    import subprocess
+    import sys
+    from common import REPO, VERIF
+
+    def child(spec):
+        r = subprocess.run([sys.executable, str(VERIF / "harness" / "aux" / "epics_child.py"), json.dumps(spec)],
+                           capture_output=True, text=True, timeout=120,
+                           env=dict(os.environ, PYTHONPATH=str(REPO / "src"), PYTHONHASHSEED="0"))
+        try:
+            return json.loads(r.stdout.strip().splitlines()[-1])
+        except Exception:  # noqa
+            return dict(records={}, started=0, errors=["child failed: " + (r.stderr or r.stdout)[-300:]])
+
+    scenarios = [([["AMP", True]], [["AMP", True], ["OTHER", False]]),
+                 ([["AMP", False]], [["AMP", False], ["OTHER", True]]),
+                 ([["AMP", True]], [["OTHER", True], ["AMP", True]])]
+    for base, ext in scenarios:
+        rb, re_ = child(base), child(ext)
+        ck.count("epics-builder:" + json.dumps(ext), True)
+        ck.evaluations += 2
+        same = (rb["records"].get("AMP") == re_["records"].get("AMP") == "AMP:VALUE" and rb["started"] == re_["started"] == 1
+                and not rb["errors"] and not re_["errors"])
+        if not same:
+            ck.report("epics-device-affected-by-an-unrelated-epics-device",
+                      f"EPICS device AMP alone: {rb}; with an unrelated EPICS device set up at the same time: {re_}",
+                      dict(kind="epics-builder", base=base, extended=ext, alone=rb, together=re_))
+            break
+    ck.coverage["epics_builder_scenarios"] = len(scenarios)
+
+
 def all_parts(ck, tier, rng):
     topics_part(ck, tier, rng)
+    epics_builder_part(ck, tier, rng)
     return all_adapter_parts(ck, tier, rng)
 
 
@@ -266,6 +304,12 @@ def replay(rp):
     if rp.get("kind") == "topic":
         from props import c15
         return c15.replay(rp)
+    if rp.get("kind") == "epics-builder":
+        ck = _Collect()
+        epics_builder_part(ck, rp.get("tier", "quick"), random.Random(rp.get("seed", 0)))
+        for reason, what in ck.hits:
+            print(reason, "--", what)
+        return 1 if ck.hits else 0
     if rp.get("kind") in ("adapters", "epics", "epics_registry", "command_adapters"):
         ck = _Collect()
         all_adapter_parts(ck, rp.get("tier", "quick"), random.Random(rp.get("seed", 0)))
